@@ -38,12 +38,18 @@ func (o memoOp) String() string {
 
 const valueStackSlots = 10001 // stackStorage.set panics on the slot with index 10001
 
-func stackWithFree(free int) funcGen.Stack[value.Value] {
-	st := funcGen.NewEmptyStack[value.Value]()
-	for i := 0; i < valueStackSlots-free; i++ {
-		st.Push(value.Int(0))
+var memoStackBase = func() []value.Value {
+	b := make([]value.Value, valueStackSlots, valueStackSlots+64)
+	for i := range b {
+		b[i] = value.Int(0)
 	}
-	return st
+	return b
+}()
+
+// stackWithFree: a stack whose storage is filled up to `free` slots below the limit (funcGen.NewStack takes the slice as its
+// storage; the slots above are scratch, so one base slice serves every operation: they run one after the other)
+func stackWithFree(free int) funcGen.Stack[value.Value] {
+	return funcGen.NewStack[value.Value](memoStackBase[:valueStackSlots-free]...)
 }
 
 // hostCell builds the list for a producer given item by item
